@@ -83,8 +83,9 @@ def check_project(col, links_by_doc):
                     col.fail("C12.download", case, f"expected a download link to {exp[1]}, got {a.group(0)[:120] if a else frag_html[:120]!r}",
                              function="myst_parser.mdit_to_docutils.sphinx_:SphinxRenderer.render_link_unknown")
             else:
-                if len(mine) != 1:
-                    col.fail("C12.warn-once", case, f"{len(mine)} myst.xref_missing warnings naming the destination: {[w[-120:] for w in warns if 'xref_missing' in w]!r}")
+                same = sum(1 for (_t, d2) in links if d2.split("#")[0].lstrip("/") == dest.split("#")[0].lstrip("/"))
+                if len(mine) != same:
+                    col.fail("C12.warn-once", case, f"{len(mine)} myst.xref_missing warnings for {same} link(s) to the destination: {[w[-120:] for w in warns if 'xref_missing' in w]!r}")
                 if text and text.replace("*", "") not in shown:
                     col.fail("C12.text-kept", case, f"link text {shown!r} does not contain the explicit text")
 
